@@ -116,116 +116,259 @@ Qed.
 
 (* ------------------------------------------------------------------ _possible_route *)
 
+Lemma filter_len_le : forall (p q : nat -> bool) L,
+  (forall x, In x L -> q x = true -> p x = true) -> length (filter q L) <= length (filter p L).
+Proof.
+  intros p q L. induction L as [|x L IH]; intros H; simpl; [lia|].
+  assert (IH' : length (filter q L) <= length (filter p L)) by (apply IH; intros; apply H; simpl; auto).
+  destruct (q x) eqn:Hq.
+  - rewrite (H x (or_introl eq_refl) Hq). simpl. lia.
+  - destruct (p x); simpl; lia.
+Qed.
+
+Lemma filter_len_lt : forall (p q : nat -> bool) L x,
+  (forall y, In y L -> q y = true -> p y = true) -> In x L -> p x = true -> q x = false ->
+  length (filter q L) < length (filter p L).
+Proof.
+  intros p q L. induction L as [|y L IH]; intros x H Hin Hp Hq; [contradiction|]. simpl.
+  assert (Hle : length (filter q L) <= length (filter p L)) by (apply filter_len_le; intros; apply H; simpl; auto).
+  destruct Hin as [He | Hin].
+  - subst y. rewrite Hp, Hq. simpl. lia.
+  - assert (Hlt : length (filter q L) < length (filter p L)) by (eapply IH; eauto; intros; apply H; simpl; auto).
+    destruct (q y) eqn:Hqy.
+    + rewrite (H y (or_introl eq_refl) Hqy). simpl. lia.
+    + destruct (p y); simpl; lia.
+Qed.
+
 Section Route.
 Variable sp : list task.
 Variable rows : list row.
 
-Lemma pr_loop_spec : forall (rec : nat -> nat -> res (bool * nat)) t ins,
-  (forall s dd bb d2, In s ins -> rec s dd = Ok (bb, d2) -> (bb = true <-> possible sp rows s)) ->
-  forall depth b d, pr_loop rec rows t ins depth = Ok (b, d) ->
-  (b = true <-> exists s, In s ins /\ witness sp rows t s).
+(* u was examined and found without any way to start, given that the tasks in V do not start *)
+Definition blocked (V : list nat) (u : nat) : Prop :=
+  inbound_names sp u <> [] /\
+  forall s, In s (inbound_names sp u) ->
+    (exists r, lookup rows s = Some r /\ is_completed (rstate r) = true /\ ~ In u (next_or_nil r)) \/
+    (lookup rows s = None /\ In s V).
+
+Lemma blocked_mono : forall V V' u, incl V V' -> blocked V u -> blocked V' u.
 Proof.
-  intros rec t ins. induction ins as [|s tl IH]; intros Hrec depth b d Hrun.
-  - simpl in Hrun. inversion Hrun; subst. split; [discriminate|]. intros [s [[] _]].
-  - simpl in Hrun.
-    assert (Htl : forall s0 dd bb d2, In s0 tl -> rec s0 dd = Ok (bb, d2) -> (bb = true <-> possible sp rows s0))
-      by (intros; eapply Hrec; simpl; eauto).
-    destruct (lookup rows s) as [r|] eqn:Hl.
+  intros V V' u Hi [Hne H]. split; [exact Hne|]. intros s Hs.
+  destruct (H s Hs) as [Hr | [Hl Hin]]; [left; exact Hr | right; split; [exact Hl | apply Hi; exact Hin]].
+Qed.
+
+(* a set of tasks each blocked by completed tasks and by the set itself contains no startable task *)
+Lemma blocked_closed : forall V, (forall u, In u V -> blocked V u) ->
+  forall u, possible sp rows u -> ~ In u V.
+Proof.
+  intros V HV u Hp. induction Hp as [t Hs | t s r Hin Hl Hc | t s r Hin Hl Hc Hn | t s Hin Hl Hp IH]; intros HinV.
+  - destruct (HV t HinV) as [Hne _]. contradiction.
+  - destruct (HV t HinV) as [_ H]. destruct (H s Hin) as [[r' [Hl' [Hc' _]]] | [Hl' _]]; rewrite Hl in Hl'.
+    + inversion Hl'; subst. rewrite Hc in Hc'. discriminate.
+    + discriminate.
+  - destruct (HV t HinV) as [_ H]. destruct (H s Hin) as [[r' [Hl' [_ Hn']]] | [Hl' _]]; rewrite Hl in Hl'.
+    + inversion Hl'; subst. contradiction.
+    + discriminate.
+  - destruct (HV t HinV) as [_ H]. destruct (H s Hin) as [[r' [Hl' _]] | [_ HsV]].
+    + rewrite Hl in Hl'. discriminate.
+    + apply IH. exact HsV.
+Qed.
+
+(* what a (recursive) call guarantees *)
+Definition call_spec (f : list nat -> nat -> nat -> res (bool * nat * list nat)) : Prop :=
+  forall vis t d b d' vis', f vis t d = Ok (b, d', vis') ->
+    incl vis vis' /\
+    (b = true -> possible sp rows t) /\
+    (b = false -> In t vis' /\ forall u, In u vis' -> ~ In u vis -> blocked vis' u).
+
+Lemma pr_loop_spec : forall rec t ins, call_spec rec ->
+  forall depth vis b d vis', pr_loop rec rows t ins depth vis = Ok (b, d, vis') ->
+  incl vis vis' /\
+  (b = true -> exists s, In s ins /\ witness sp rows t s) /\
+  (b = false ->
+     (forall u, In u vis' -> ~ In u vis -> blocked vis' u) /\
+     (forall s, In s ins ->
+        (exists r, lookup rows s = Some r /\ is_completed (rstate r) = true /\ ~ In t (next_or_nil r)) \/
+        (lookup rows s = None /\ In s vis'))).
+Proof.
+  intros rec t ins Hrec. induction ins as [|s tl IH]; intros depth vis b d vis' Hrun.
+  - simpl in Hrun. inversion Hrun; subst. split; [apply incl_refl|]. split; [discriminate|].
+    intros _. split; [intros u Hu Hnu; contradiction | intros s []].
+  - simpl in Hrun. destruct (lookup rows s) as [r|] eqn:Hl.
     + destruct (is_completed (rstate r)) eqn:Hc; simpl in Hrun.
-      * destruct (rnext r) as [l|] eqn:Hn; [|discriminate].
-        destruct (memn t l) eqn:Hm.
-        -- inversion Hrun; subst. split; [|reflexivity]. intros _. exists s. split; [simpl; auto|].
-           right. left. exists r. repeat split; auto. unfold next_or_nil. rewrite Hn. apply memn_In. exact Hm.
-        -- specialize (IH Htl _ _ _ Hrun). rewrite IH. split.
-           ++ intros [s0 [Hin Hw]]. exists s0. split; [simpl; auto | exact Hw].
-           ++ intros [s0 [[Heq | Hin] Hw]]; [|exists s0; auto]. subst s0. exfalso.
-              destruct Hw as [[r' [Hl' Hc']] | [[r' [Hl' [Hc' Hn']]] | [Hl' _]]]; rewrite Hl in Hl'; try discriminate.
-              ** inversion Hl'; subst. rewrite Hc in Hc'. discriminate.
-              ** inversion Hl'; subst. unfold next_or_nil in Hn'. rewrite Hn in Hn'.
-                 apply memn_false in Hm. contradiction.
-      * inversion Hrun; subst. split; [|reflexivity]. intros _. exists s. split; [simpl; auto|].
-        left. exists r. auto.
-    + destruct (rec s (S depth)) as [[[|] d'] | | ] eqn:Hr; try discriminate.
-      * inversion Hrun; subst. split; [|reflexivity]. intros _. exists s. split; [simpl; auto|].
-        right. right. split; [exact Hl|]. eapply Hrec; simpl; eauto.
-      * specialize (IH Htl _ _ _ Hrun). rewrite IH. split.
-        -- intros [s0 [Hin Hw]]. exists s0. split; [simpl; auto | exact Hw].
-        -- intros [s0 [[Heq | Hin] Hw]]; [|exists s0; auto]. subst s0. exfalso.
-           destruct Hw as [[r' [Hl' _]] | [[r' [Hl' _]] | [_ Hp]]]; try (rewrite Hl in Hl'; discriminate).
-           assert (false = true) by (eapply Hrec; simpl; eauto). discriminate.
+      * destruct (memn t (next_or_nil r)) eqn:Hm.
+        -- inversion Hrun; subst. split; [apply incl_refl|]. split; [|discriminate].
+           intros _. exists s. split; [simpl; auto|]. right. left. exists r. repeat split; auto.
+           apply memn_In. exact Hm.
+        -- destruct (IH _ _ _ _ _ Hrun) as [Hi [Ht Hf]]. split; [exact Hi|]. split.
+           ++ intros Hb. destruct (Ht Hb) as [s0 [Hin Hw]]. exists s0. split; [simpl; auto | exact Hw].
+           ++ intros Hb. destruct (Hf Hb) as [Hnew Hall]. split; [exact Hnew|].
+              intros s0 [He | Hin]; [|apply Hall; exact Hin]. subst s0. left. exists r.
+              repeat split; auto. apply memn_false. exact Hm.
+      * inversion Hrun; subst. split; [apply incl_refl|]. split; [|discriminate].
+        intros _. exists s. split; [simpl; auto|]. left. exists r. auto.
+    + destruct (rec vis s (S depth)) as [[[[|] d1] v1] | | ] eqn:Hr; try discriminate.
+      * inversion Hrun; subst. destruct (Hrec _ _ _ _ _ _ Hr) as [Hi [Ht _]].
+        split; [exact Hi|]. split; [|discriminate]. intros _. exists s. split; [simpl; auto|].
+        right. right. split; [exact Hl | apply Ht; reflexivity].
+      * destruct (Hrec _ _ _ _ _ _ Hr) as [Hi1 [_ Hf1]]. destruct (Hf1 eq_refl) as [Hs1 Hnew1].
+        destruct (IH _ _ _ _ _ Hrun) as [Hi [Ht Hf]].
+        split; [eapply incl_tran; eauto|]. split.
+        -- intros Hb. destruct (Ht Hb) as [s0 [Hin Hw]]. exists s0. split; [simpl; auto | exact Hw].
+        -- intros Hb. destruct (Hf Hb) as [Hnew Hall]. split.
+           ++ intros u Hu Hnu. destruct (in_dec Nat.eq_dec u v1) as [Hv1 | Hv1].
+              ** eapply blocked_mono; [exact Hi|]. apply Hnew1; assumption.
+              ** apply Hnew; assumption.
+           ++ intros s0 [He | Hin]; [|apply Hall; exact Hin]. subst s0. right. split; [exact Hl|].
+              apply Hi. exact Hs1.
 Qed.
 
-Lemma possible_route_S : forall f t depth,
-  possible_route (S f) sp rows t depth =
-  match inbound_names sp t with
-  | [] => Ok (true, depth)
-  | _ :: _ => pr_loop (possible_route f sp rows) rows t (inbound_names sp t) depth
-  end.
-Proof. intros. simpl. destruct (inbound_names sp t); reflexivity. Qed.
+Lemma possible_route_S : forall f vis t depth,
+  possible_route (S f) sp rows vis t depth =
+  if memn t vis then Ok (false, depth, vis)
+  else match inbound_names sp t with
+       | [] => Ok (true, depth, t :: vis)
+       | _ :: _ => pr_loop (possible_route f sp rows) rows t (inbound_names sp t) depth (t :: vis)
+       end.
+Proof. intros. simpl. destruct (memn t vis); [reflexivity|]. destruct (inbound_names sp t); reflexivity. Qed.
 
-(* Whenever the search returns, it returns exactly "a route is still possible". *)
+Lemma possible_route_call_spec : forall fuel, call_spec (possible_route fuel sp rows).
+Proof.
+  induction fuel as [|f IH]; intros vis t d b d' vis' Hrun; [discriminate|].
+  rewrite possible_route_S in Hrun. destruct (memn t vis) eqn:Hv.
+  - inversion Hrun; subst. split; [apply incl_refl|]. split; [discriminate|].
+    intros _. split; [apply memn_In; exact Hv | intros u Hu Hnu; contradiction].
+  - apply memn_false in Hv. destruct (inbound_names sp t) as [|s0 tl] eqn:Hin.
+    + inversion Hrun; subst. split; [apply incl_tl, incl_refl|]. split; [|discriminate].
+      intros _. apply P_start. exact Hin.
+    + rewrite <- Hin in *. destruct (pr_loop_spec _ t _ IH _ _ _ _ _ Hrun) as [Hi [Ht Hf]].
+      assert (Hvv : incl vis vis') by (intros x Hx; apply Hi; simpl; auto).
+      split; [exact Hvv|]. split.
+      * intros Hb. apply possible_inv. right. apply Ht. exact Hb.
+      * intros Hb. destruct (Hf Hb) as [Hnew Hall]. split; [apply Hi; simpl; auto|].
+        intros u Hu Hnu. destruct (Nat.eq_dec u t) as [He | Hne].
+        -- subst u. split; [rewrite Hin; discriminate | exact Hall].
+        -- apply Hnew; [exact Hu|]. intros [He | Hx]; [apply Hne; symmetry; exact He | contradiction].
+Qed.
+
+(* Whenever the search returns, it returns exactly "a route is still possible" - on every definition,
+   with or without cycles, for every row set. *)
 Theorem possible_route_exact : forall fuel t depth b d,
-  possible_route fuel sp rows t depth = Ok (b, d) -> (b = true <-> possible sp rows t).
+  possible_route_top fuel sp rows t depth = Ok (b, d) -> (b = true <-> possible sp rows t).
 Proof.
-  induction fuel as [|f IH]; intros t depth b d Hrun; [discriminate|].
-  rewrite possible_route_S in Hrun. rewrite possible_inv.
-  destruct (inbound_names sp t) as [|s0 tl] eqn:Hin.
-  - inversion Hrun; subst. split; auto.
-  - rewrite <- Hin in *.
-    pose proof (pr_loop_spec (possible_route f sp rows) t (inbound_names sp t)
-                  (fun s dd bb d2 _ H => IH s dd bb d2 H) depth b d Hrun) as Hs.
-    rewrite Hs. split.
-    + intros H. right. exact H.
-    + intros [H | H]; [rewrite Hin in H; discriminate | exact H].
+  intros fuel t depth b d H. unfold possible_route_top in H.
+  destruct (possible_route fuel sp rows [] t depth) as [[[b' d'] v] | | ] eqn:Hr; try discriminate.
+  inversion H; subst. destruct (possible_route_call_spec _ _ _ _ _ _ _ Hr) as [_ [Ht Hf]].
+  split; [exact Ht|]. intros Hp. destruct b; [reflexivity|]. exfalso.
+  destruct (Hf eq_refl) as [Hin Hnew].
+  eapply blocked_closed; [|exact Hp|exact Hin]. intros u Hu. apply Hnew; [exact Hu | intros []].
 Qed.
 
-Lemma pr_loop_mono : forall (rec rec' : nat -> nat -> res (bool * nat)) t ins,
-  (forall s dd x, rec s dd = Ok x -> rec' s dd = Ok x) ->
-  forall depth x, pr_loop rec rows t ins depth = Ok x -> pr_loop rec' rows t ins depth = Ok x.
+Lemma pr_loop_mono : forall rec rec' t ins,
+  (forall v s dd x, rec v s dd = Ok x -> rec' v s dd = Ok x) ->
+  forall depth vis x, pr_loop rec rows t ins depth vis = Ok x -> pr_loop rec' rows t ins depth vis = Ok x.
 Proof.
-  intros rec rec' t ins Hle. induction ins as [|s tl IH]; intros depth x Hrun; simpl in *; [exact Hrun|].
+  intros rec rec' t ins Hle. induction ins as [|s tl IH]; intros depth vis x Hrun; simpl in *; [exact Hrun|].
   destruct (lookup rows s) as [r|].
   - destruct (negb (is_completed (rstate r))); [exact Hrun|].
-    destruct (rnext r); [|discriminate]. destruct (memn t l); [exact Hrun | apply IH; exact Hrun].
-  - destruct (rec s (S depth)) as [[[|] d'] | | ] eqn:Hr; try discriminate.
-    + rewrite (Hle _ _ _ Hr). exact Hrun.
-    + rewrite (Hle _ _ _ Hr). apply IH. exact Hrun.
+    destruct (memn t (next_or_nil r)); [exact Hrun | apply IH; exact Hrun].
+  - destruct (rec vis s (S depth)) as [[[[|] d'] v'] | | ] eqn:Hr; try discriminate.
+    + rewrite (Hle _ _ _ _ Hr). exact Hrun.
+    + rewrite (Hle _ _ _ _ Hr). apply IH. exact Hrun.
 Qed.
 
-(* more fuel never changes an answer *)
-Theorem possible_route_fuel_mono : forall fuel m t depth x,
-  possible_route fuel sp rows t depth = Ok x -> possible_route (fuel + m) sp rows t depth = Ok x.
+(* more stack never changes an answer *)
+Theorem possible_route_fuel_mono : forall fuel m vis t depth x,
+  possible_route fuel sp rows vis t depth = Ok x -> possible_route (fuel + m) sp rows vis t depth = Ok x.
 Proof.
-  induction fuel as [|f IH]; intros m t depth x Hrun; [discriminate|].
+  induction fuel as [|f IH]; intros m vis t depth x Hrun; [discriminate|].
   change (S f + m) with (S (f + m)). rewrite possible_route_S in *.
+  destruct (memn t vis); [exact Hrun|].
   destruct (inbound_names sp t) as [|s0 tl]; [exact Hrun|].
-  eapply pr_loop_mono; [|exact Hrun]. intros s dd y Hy. apply IH. exact Hy.
+  eapply pr_loop_mono; [|exact Hrun]. intros v s dd y Hy. apply IH. exact Hy.
 Qed.
 
-Lemma pr_loop_fuel : forall (rec : nat -> nat -> res (bool * nat)) t ins,
-  (forall s dd, In s ins -> rec s dd <> OutOfFuel) ->
-  forall depth, pr_loop rec rows t ins depth <> OutOfFuel.
+(* -- termination: the number of tasks not yet examined bounds the recursion depth -- *)
+
+Definition unvisited (vis : list nat) : nat :=
+  length (filter (fun u => negb (memn u vis)) (map tname sp)).
+
+Lemma inbound_in_spec : forall t s, In s (inbound_names sp t) -> In s (map tname sp).
 Proof.
-  intros rec t ins. induction ins as [|s tl IH]; intros Hrec depth; simpl; [discriminate|].
-  assert (Htl : forall s0 dd, In s0 tl -> rec s0 dd <> OutOfFuel) by (intros; apply Hrec; simpl; auto).
+  intros t s H. unfold inbound_names in H. apply in_map_iff in H. destruct H as [x [He Hx]].
+  apply filter_In in Hx. destruct Hx as [Hx _]. apply in_map_iff. exists x. auto.
+Qed.
+
+Lemma unvisited_incl : forall v v', incl v v' -> unvisited v' <= unvisited v.
+Proof.
+  intros v v' Hi. unfold unvisited. apply filter_len_le. intros x _ Hx.
+  apply negb_true_iff in Hx. apply negb_true_iff. apply memn_false in Hx. apply memn_false.
+  intros H. apply Hx. apply Hi. exact H.
+Qed.
+
+Lemma unvisited_cons : forall v t, In t (map tname sp) -> ~ In t v -> unvisited (t :: v) < unvisited v.
+Proof.
+  intros v t Hin Hnv. unfold unvisited. apply filter_len_lt with (x := t).
+  - intros y _ Hy. apply negb_true_iff in Hy. apply negb_true_iff. apply memn_false in Hy. apply memn_false.
+    intros H. apply Hy. simpl. auto.
+  - exact Hin.
+  - apply negb_true_iff. apply memn_false. exact Hnv.
+  - apply negb_false_iff. apply memn_In. simpl. auto.
+Qed.
+
+Lemma unvisited_le : forall v, unvisited v <= length sp.
+Proof.
+  intros v. unfold unvisited. rewrite <- (map_length tname sp).
+  induction (map tname sp) as [|x L IH]; simpl; [lia|].
+  destruct (negb (memn x v)); simpl; lia.
+Qed.
+
+Lemma pr_loop_returns : forall rec t ins vis0,
+  call_spec rec ->
+  (forall v s dd, In s ins -> incl vis0 v -> exists x, rec v s dd = Ok x) ->
+  forall depth vis, incl vis0 vis -> exists x, pr_loop rec rows t ins depth vis = Ok x.
+Proof.
+  intros rec t ins vis0 Hspec. induction ins as [|s tl IH]; intros Hrec depth vis Hi; simpl; [eauto|].
+  assert (Htl : forall v s0 dd, In s0 tl -> incl vis0 v -> exists x, rec v s0 dd = Ok x)
+    by (intros; apply Hrec; simpl; auto).
   destruct (lookup rows s) as [r|].
-  - destruct (negb (is_completed (rstate r))); [discriminate|].
-    destruct (rnext r); [|discriminate]. destruct (memn t l); [discriminate | apply IH; exact Htl].
-  - destruct (rec s (S depth)) as [[[|] d'] | | ] eqn:Hr; try discriminate.
-    + apply IH; exact Htl.
-    + exfalso. eapply Hrec; [|exact Hr]. simpl; auto.
+  - destruct (negb (is_completed (rstate r))); [eauto|].
+    destruct (memn t (next_or_nil r)); [eauto | apply IH; assumption].
+  - destruct (Hrec vis s (S depth) (or_introl eq_refl) Hi) as [[[b d1] v1] Hr]. rewrite Hr.
+    destruct b; [eauto|]. apply IH; [exact Htl|].
+    destruct (Hspec _ _ _ _ _ _ Hr) as [Hi1 _]. eapply incl_tran; eauto.
 Qed.
 
-(* On a definition whose transitions admit a ranking (no cycles) the search needs at most
-   rank+1 nested calls: it never runs out of stack. *)
-Theorem possible_route_acyclic : forall rank : nat -> nat,
-  (forall t s, In s (inbound_names sp t) -> rank s < rank t) ->
-  forall fuel t depth, rank t < fuel -> possible_route fuel sp rows t depth <> OutOfFuel.
+Lemma possible_route_returns_in : forall fuel vis t depth,
+  In t (map tname sp) \/ In t vis -> unvisited vis < fuel ->
+  exists x, possible_route fuel sp rows vis t depth = Ok x.
 Proof.
-  intros rank Hrank. induction fuel as [|f IH]; intros t depth Hlt; [lia|].
-  rewrite possible_route_S. destruct (inbound_names sp t) as [|s0 tl] eqn:Hin; [discriminate|].
-  rewrite <- Hin. apply pr_loop_fuel. intros s dd Hs. apply IH.
-  specialize (Hrank t s Hs). lia.
+  induction fuel as [|f IH]; intros vis t depth Ht Hlt; [lia|].
+  rewrite possible_route_S. destruct (memn t vis) eqn:Hv; [eauto|].
+  apply memn_false in Hv. destruct Ht as [Ht | Ht]; [|contradiction].
+  destruct (inbound_names sp t) as [|s0 tl] eqn:Hin; [eauto|]. rewrite <- Hin.
+  pose proof (unvisited_cons vis t Ht Hv) as Hdec.
+  apply pr_loop_returns with (vis0 := t :: vis); [apply possible_route_call_spec | | apply incl_refl].
+  intros v s dd Hs Hi. apply IH.
+  - left. eapply inbound_in_spec; eauto.
+  - pose proof (unvisited_incl _ _ Hi). lia.
+Qed.
+
+(* The search always returns when the interpreter allows two more nested calls than the workflow
+   has tasks - on EVERY definition, cycles included. *)
+Theorem possible_route_total : forall fuel t depth,
+  length sp + 1 < fuel ->
+  exists b d, possible_route_top fuel sp rows t depth = Ok (b, d).
+Proof.
+  intros fuel t depth Hlt. unfold possible_route_top.
+  assert (H : exists x, possible_route fuel sp rows [] t depth = Ok x).
+  { destruct fuel as [|f]; [lia|]. rewrite possible_route_S. simpl memn. cbv iota.
+    destruct (inbound_names sp t) as [|s0 tl] eqn:Hin; [eauto|]. rewrite <- Hin.
+    apply pr_loop_returns with (vis0 := [t]); [apply possible_route_call_spec | | apply incl_refl].
+    intros v s dd Hs Hi. apply possible_route_returns_in.
+    - left. eapply inbound_in_spec; eauto.
+    - pose proof (unvisited_le v). lia. }
+  destruct H as [[[b d] v] H]. rewrite H. eauto.
 Qed.
 
 End Route.
@@ -259,7 +402,7 @@ Proof.
       * intros [r' [Hl' [Hc' _]]]. inversion Hl'; subst. rewrite Hc in Hc'. discriminate.
       * discriminate.
       * intros [[r' [Hl' [Hc' _]]] | [Hl' _]]; [|discriminate]. inversion Hl'; subst. rewrite Hc in Hc'. discriminate.
-  - destruct (possible_route fuel sp rows s 1) as [[[|] d'] | | ] eqn:Hp; inversion H; subst.
+  - destruct (possible_route_top fuel sp rows s 1) as [[[|] d'] | | ] eqn:Hp; inversion H; subst.
     + pose proof (possible_route_exact sp rows _ _ _ _ _ Hp) as Hex.
       split; split.
       * discriminate.
@@ -547,73 +690,38 @@ Proof.
       * left. reflexivity.
 Qed.
 
-(* ------------------------------------------------------------------ the unbounded recursion on a cycle *)
+(* ------------------------------------------------------------------ the evaluation always returns *)
 
-(* t0 -> j;  t2 -> t3 (on-success), t2 -> t5 (on-error);  t3 -> j, t3 -> t1 (on-error);  t1 -> t3;  j = t4 joins all.
+Lemma induced_total : forall sp rows fuel j s,
+  length sp + 1 < fuel -> exists x, induced fuel sp rows j s = Ok x.
+Proof.
+  intros sp rows fuel j s Hlt. unfold induced. destruct (lookup rows s) as [r|].
+  - destruct (negb (is_completed (rstate r))); [eauto|]. destruct (memn j (next_or_nil r)); eauto.
+  - destruct (possible_route_total sp rows fuel s 1 Hlt) as [b [d H]]. rewrite H. destruct b; eauto.
+Qed.
+
+Lemma induced_all_total : forall sp rows fuel j ins,
+  length sp + 1 < fuel -> exists l, induced_all fuel sp rows j ins = Ok l.
+Proof.
+  intros sp rows fuel j ins Hlt. induction ins as [|s tl [l IH]]; simpl; [eauto|].
+  destruct (induced_total sp rows fuel j s Hlt) as [x Hx]. rewrite Hx, IH. eauto.
+Qed.
+
+(* No definition (cycles included) and no row set makes the evaluation of a join raise, as long as the
+   interpreter allows two more nested calls than the workflow has tasks. *)
+Theorem logical_total : forall sp rows fuel j k,
+  length sp + 1 < fuel -> exists st c tr, logical fuel sp rows j k = Ok (st, c, tr).
+Proof.
+  intros sp rows fuel j k Hlt. rewrite logical_eq. destruct (inbound_names sp j) as [|s0 tl] eqn:Hin; [eauto|].
+  rewrite <- Hin. destruct (induced_all_total sp rows fuel j (inbound_names sp j) Hlt) as [l Hl]. rewrite Hl.
+  destruct (decide k rows l) as [[st c] tr]. eauto.
+Qed.
+
+(* the definition with a cycle on which the search used to recurse without bound (fixed in the source):
+   t0 -> j;  t2 -> t3 (on-success), t2 -> t5 (on-error);  t3 -> j, t3 -> t1 (on-error);  t1 -> t3;  j = t4 joins all.
    t0 succeeded and routed to j; t2 FAILED and routed to t5: t3 (and t1) can never start. *)
 Definition cyc_sp : list task :=
   [mkTask 0 None [4]; mkTask 1 None [3]; mkTask 2 None [3; 5]; mkTask 5 None [];
    mkTask 3 None [4; 1]; mkTask 4 (Some JAll) []].
 Definition cyc_rows : list row :=
   [mkRow 0 0 SUCCESS (Some [4]); mkRow 1 2 ERROR (Some [5]); mkRow 2 5 SUCCESS (Some []); mkRow 3 4 WAITING None].
-
-Lemma cyc_diverges : forall fuel d,
-  possible_route fuel cyc_sp cyc_rows 3 d = OutOfFuel /\ possible_route fuel cyc_sp cyc_rows 1 d = OutOfFuel.
-Proof.
-  induction fuel as [|f IH]; intros d; [split; reflexivity|].
-  split.
-  - rewrite possible_route_S. change (inbound_names cyc_sp 3) with [1; 2].
-    cbn [pr_loop]. change (lookup cyc_rows 1) with (@None row). cbv iota.
-    rewrite (proj2 (IH (S d))). reflexivity.
-  - rewrite possible_route_S. change (inbound_names cyc_sp 1) with [3].
-    cbn [pr_loop]. change (lookup cyc_rows 3) with (@None row). cbv iota.
-    rewrite (proj1 (IH (S d))). reflexivity.
-Qed.
-
-Lemma cyc_impossible : forall t, possible cyc_sp cyc_rows t -> t <> 3 /\ t <> 1.
-Proof.
-  intros t H. induction H as [t Hs | t s r Hin Hl Hc | t s r Hin Hl Hc Hn | t s Hin Hl Hp IH].
-  - split; intros He; subst t; discriminate.
-  - split; intros He; subst t.
-    + change (inbound_names cyc_sp 3) with [1; 2] in Hin. destruct Hin as [He | [He | []]]; subst s.
-      * discriminate.
-      * inversion Hl; subst r. discriminate.
-    + change (inbound_names cyc_sp 1) with [3] in Hin. destruct Hin as [He | []]; subst s. discriminate.
-  - split; intros He; subst t.
-    + change (inbound_names cyc_sp 3) with [1; 2] in Hin. destruct Hin as [He | [He | []]]; subst s.
-      * discriminate.
-      * inversion Hl; subst r. simpl in Hn. destruct Hn as [Hn | []]. discriminate.
-    + change (inbound_names cyc_sp 1) with [3] in Hin. destruct Hin as [He | []]; subst s. discriminate.
-  - split; intros He; subst t.
-    + change (inbound_names cyc_sp 3) with [1; 2] in Hin. destruct Hin as [He | [He | []]]; subst s.
-      * destruct IH as [_ IH]. apply IH. reflexivity.
-      * discriminate.
-    + change (inbound_names cyc_sp 1) with [3] in Hin. destruct Hin as [He | []]; subst s.
-      destruct IH as [IH _]. apply IH. reflexivity.
-Qed.
-
-(* The faithful model refutes "fails instead of waiting forever" on definitions with a cycle:
-   the join needs both inbound tasks, t3 can never route to it in any continuation of the run,
-   yet no amount of stack makes the evaluation return ERROR (Python: RecursionError, the join stays WAITING). *)
-Theorem join_cycle_never_fails :
-  (forall fuel, logical fuel cyc_sp cyc_rows 4 JAll = OutOfFuel) /\
-  dead cyc_sp cyc_rows 4 3 /\
-  (forall rows' nr, evolves cyc_sp cyc_rows rows' ->
-     countP (routed rows' 4) (inbound_names cyc_sp 4) nr -> nr < needed JAll (length (inbound_names cyc_sp 4))).
-Proof.
-  assert (Hdead : dead cyc_sp cyc_rows 4 3).
-  { right. split; [reflexivity|]. intros Hp. apply cyc_impossible in Hp. destruct Hp as [Hp _]. apply Hp. reflexivity. }
-  split; [|split].
-  - intros fuel. rewrite logical_eq. change (inbound_names cyc_sp 4) with [0; 3]. cbv iota.
-    cbn [induced_all]. unfold induced at 1. change (lookup cyc_rows 0) with (Some (mkRow 0 0 SUCCESS (Some [4]))).
-    cbv iota. simpl is_completed. simpl negb. cbv iota. simpl memn. cbv iota.
-    unfold induced. change (lookup cyc_rows 3) with (@None row). cbv iota.
-    rewrite (proj1 (cyc_diverges fuel 1)). reflexivity.
-  - exact Hdead.
-  - intros rows' nr Hev Hcnt. change (inbound_names cyc_sp 4) with [0; 3] in *. simpl.
-    assert (Hd' : dead cyc_sp rows' 4 3) by (eapply dead_mono; eauto).
-    inversion Hcnt as [| s l n Hp Hrest | s l n Hp Hrest]; subst;
-      inversion Hrest as [| s' l' n' Hp' Hrest' | s' l' n' Hp' Hrest']; subst;
-      try (exfalso; eapply routed_not_dead; eassumption);
-      inversion Hrest'; subst; lia.
-Qed.
